@@ -77,6 +77,16 @@ def run(rep, tier, seed, b):
         for strict in (True, False):
             for attr in (True, False):
                 items.append((tabs[1], x, strict, attr))
+    # every element the live tables of _prune_from_ds know (AROMATIC_VALENCES / VALENCE_ELECTRONS / the aromatic subset), as an
+    # aromatic ring member with and without H, charge, bracket: a table that names an element the other table lacks shows up here
+    import selfies.constants as K
+    els = sorted(set(K.AROMATIC_VALENCES) | set(K.VALENCE_ELECTRONS) | set(e.capitalize() for e in K.AROMATIC_SUBSET))
+    for el in els:
+        lo = el.lower()
+        for x in ('c1cc[%sH]cc1' % lo, '[%s]1ccccc1' % lo, 'c1cc[%s]cc1' % lo, 'c1cc[%s+]cc1' % lo, 'c1cc[%s-]cc1' % lo, 'c1c[%sH2]ccc1' % lo,
+                  '%s1cccc1' % lo, 'c1cc%scc1' % lo, '[%s]1[%s][%s][%s][%s]1' % (lo, lo, lo, lo, lo), '[%sH]1cccc1' % lo, 'C[%s]1cccc1' % lo):
+            for strict in (True, False):
+                items.append((tabs[1], x, strict, False))
     res = core.pmap('p_c09', 'work', items, chunk=500)
     slow = 0.0
     for it, (oi, om, dt, after) in zip(items, res):
@@ -132,7 +142,7 @@ def run(rep, tier, seed, b):
         rep.sample({'smiles': it[1][:100], 'strict': it[2], 'attribute': it[3]})
     rep.rule = ('dataset / re-spelt / mutated SMILES broken once or twice (deletions, insertions of brackets, digits, %%nn, bonds, dots, stereo marks, aromatic symbols, non-ASCII), '
                 'random strings over a SMILES-like character pool, %d hand-written corner cases (self / mismatched / duplicate ring closures, aromatic bonds on non-aromatic elements, '
-                'odd aromatic rings, long and nested inputs) x all flag combinations; outcome class compared with the model and judged. '
+                'odd aromatic rings, long and nested inputs) x all flag combinations; every element of the live AROMATIC_VALENCES / VALENCE_ELECTRONS tables as an aromatic ring member (H, charge, bracket variants); outcome class compared with the model and judged. '
                 'non-trivial = distinct input that is rejected or longer than 20 characters' % len(SPECIAL))
 
 
